@@ -23,9 +23,16 @@ package static
 //@   ensures mpClosed
 //@ func (*Modifier).ModifyResponse
 //@   serves C20
+//@   at call 0 of HasSuffix before assert[the-open-ended-test-looks-at-the-range-being-parsed] arg0 == rng
+//@   at call 1 of Split after set rgPair = false
+//@   at call 0 of Atoi before set rgSize = info.Size()
+//@   at call 0 of Atoi after set rgStart = result0
+//@   at call 1 of Atoi after set rgEnd = result0
+//@   at call 1 of Atoi after set rgPair = (result1 == nil)
+//@   at return all before assert[416-only-for-an-unsatisfiable-range] res.StatusCode == 416 && old(res.StatusCode) != 416 && rgPair ==> rgStart > rgEnd || rgStart < 0 || rgStart >= rgSize
 //@   at call 0 of Bytes before assert[multipart-body-is-complete-before-its-length-is-taken] mpClosed
 //@   at call 1 of Bytes before assert[multipart-body-is-complete-before-its-bytes-are-taken] mpClosed
-//@   modifies joinRoot, joinRel, joinRes, mpClosed
+//@   modifies joinRoot, joinRel, joinRes, mpClosed, rgStart, rgEnd, rgPair, rgSize
 //@   noframe
 //@   at call 0 of Open before assert[opened-file-is-the-root-joined-with-the-cleaned-request-path-or-its-configured-target] arg0 == joinRes && joinRoot == s.rootPath &&
 //@        (joinRel == filepath.Clean(res.Request.URL.Path) || (has(s.explicitPaths, filepath.Clean(res.Request.URL.Path)) && joinRel == s.explicitPaths[filepath.Clean(res.Request.URL.Path)]))
